@@ -3,5 +3,5 @@
 # SCALE multiplies the tier's run count (default 1), WORKERS the number of worker processes (default 6).
 export VERIF_DIR=$PWD VERIF_REPO=${VP_RUN_REPO:-/repo}
 for p in "$@"; do
-  echo "##### $p"; ./bin/check $p --tier thorough --workers ${WORKERS:-6} --scale ${SCALE:-1} 2>&1 | grep -v "^  witness" | cut -c1-400 | tail -14; echo "exit=$?"
+  echo "##### $p"; ./bin/check $p --tier thorough --workers ${WORKERS:-6} --scale ${SCALE:-1} --seed ${SEED:-1} 2>&1 | grep -v "^  witness" | cut -c1-400 | tail -14; echo "exit=$?"
 done
